@@ -64,7 +64,8 @@ theorem update_body_eq_model (u : Uni) (md : Modes) (ev : Event) :
     reduceIte, or_false, false_or, or_self, List.length, Option.map, List.cons_append, List.nil_append, Bool.or_false, List.any,
     andThen_norm, andThen_ret, andThen_err, andThen_ite, afterSwitch_ite, afterSwitch_ret, afterSwitch_norm, branch_bool,
     Bool.false_eq_true, callStmt_write, updateCalls, encodeXterm_body_eq_model, handleMouse_body_eq_model,
-    outOnly_ite, outOnly_ret, outOnly_norm, update, List.append_nil]
+    outOnly_ite, outOnly_ret, outOnly_norm, update, List.append_nil,
+    const_EventRelease, binop_eq_int, decide_eq_true_eq]
   all_goals (split <;> rfl)
 
 example : updateGen VaxisModel.Props.C13Body.exUni { paste := true } .pasteEnd = some [27, 91, 50, 48, 49, 126] := by decide +kernel
